@@ -1,6 +1,8 @@
 #!/bin/bash
-# runs the thorough tier of every claimed property, one after the other (each check parallelises its own jobs)
+# runs the thorough tier of the claimed properties, one after the other (each check parallelises its own jobs).
+# C01's thorough jobs are a subset of C02's (same job names, same bounds cache), C14/C17/C20 have no thorough-only job: not repeated here.
 cd "$(dirname "$0")/.."
-for p in C03 C04 C13 C14 C05 C15 C06 C09 C11 C18 C20 C07 C16 C01; do
-  echo "=== $p $(date)"; VERIF_WORKERS=3 ./check.py $p --tier thorough 2>&1 | grep -a "^\[$p\]\|^VIOLATION\|^INCONCLUSIVE\|^KNOWN" | cut -c1-400
+for p in ${@:-C02 C07 C16 C18 C09 C11 C19 C06 C05 C03 C13 C04 C15}; do
+  echo "=== $p $(date)"; VERIF_WORKERS=${VERIF_WORKERS:-4} ./check.py $p --tier thorough 2>&1 | grep -a "^\[$p\]\|^VIOLATION\|^INCONCLUSIVE\|^KNOWN" | cut -c1-400
 done
+echo "=== done $(date)"
